@@ -101,6 +101,13 @@ def run_pair(case) -> CaseResult:
 
     sopts: Dict[str, Any] = {'server_factory': Server, 'encoding': None}
     copts: Dict[str, Any] = {}
+    comp = case.get('comp', 'none')
+
+    if comp != 'none':
+        # a compression context spans packets: what happens to it at NEWKEYS
+        # has to be the same on both ends
+        sopts['compression_algs'] = [comp]
+        copts['compression_algs'] = [comp]
 
     if case['srekey']:
         sopts['rekey_bytes'] = case['srekey']
@@ -110,7 +117,7 @@ def run_pair(case) -> CaseResult:
         sopts['rekey_seconds'] = case['seconds']
         copts['rekey_seconds'] = case['seconds'] + case['skew']
 
-    labels = set()
+    labels = {'comp:' + comp}
 
     with LogLevel() as counter:
         pair = Pair(sopts, copts)
@@ -276,6 +283,7 @@ def pair_strategy(tier: str):
         'srekey': pick([0, 1, 64, 1000, 20000]),
         'crekey': pick([0, 1, 64, 1000, 20000]),
         'seconds': pick([0, 0, 60, 100]), 'skew': pick([0, 1, 50]),
+        'comp': pick(['none', 'none', 'zlib', 'zlib@openssh.com']),
         'chunks': st.one_of(st.just([]), st.just([1]),
                             st.lists(st.integers(1, 3000), min_size=1,
                                      max_size=5)),
@@ -306,11 +314,15 @@ def run_ref(case) -> CaseResult:
     if case['rekey']:
         opts['rekey_bytes'] = case['rekey']
 
-    labels = {'role:' + role}
+    comp = case.get('comp', 'none')
+    opts['compression_algs'] = [comp]
+    labels = {'role:' + role, 'comp:' + comp}
+    compb = [comp.encode()]
 
     if role == 'server':
         ref = RefPeer('client', enc_cs=[first[0]], mac_cs=[first[1] or
-                                                           macs[0]])
+                                                           macs[0]],
+                      comp_cs=compb, comp_sc=compb)
 
         class Server(memwire.PwServer):
             def session_requested(self):
@@ -323,7 +335,8 @@ def run_ref(case) -> CaseResult:
     else:
         hk = _HK.setdefault('ed', RefKey('ed25519'))
         ref = RefPeer('server', host_key=hk, enc_cs=[first[0]],
-                      mac_cs=[first[1] or macs[0]])
+                      mac_cs=[first[1] or macs[0]], comp_cs=compb,
+                      comp_sc=compb)
 
     conn = RefConn(ref)
     link = RefLink(ref, opts)
@@ -494,6 +507,7 @@ def ref_strategy(tier: str):
         'role': pick(['server', 'client']),
         'rekey': pick([0, 1, 64, 1000, 20000]),
         'alg0': pick(range(len(ALT))), 'alg1': pick(range(len(ALT))),
+        'comp': pick(['none', 'none', 'zlib', 'zlib@openssh.com']),
         'ops': st.lists(op, min_size=2, max_size=14 if tier == 'quick'
                         else 30)})
 
@@ -502,12 +516,14 @@ FAMILIES = [
     Family('pair', run_pair, strategy=pair_strategy,
            budget={'quick': 900, 'thorough': 12000},
            required={'all': ['rekeyed', 'rekeyed-twice', 'both-sides-limit',
-                             'open-in-flight', 'clock', 'exit-request']},
+                             'open-in-flight', 'clock', 'exit-request',
+                             'comp:zlib', 'comp:zlib@openssh.com']},
            case_timeout=180, timeout_is_violation=True),
     Family('ref', run_ref, strategy=ref_strategy,
            budget={'quick': 1200, 'thorough': 15000},
            required={'all': ['role:server', 'role:client', 'rekeyed',
                              'rekeyed-twice', 'peer-initiated', 'burst',
-                             'algorithm-changed', 'tiny-threshold']},
+                             'algorithm-changed', 'tiny-threshold',
+                             'comp:zlib', 'comp:zlib@openssh.com']},
            case_timeout=180, timeout_is_violation=True),
 ]
